@@ -11,7 +11,7 @@ META = dict(
          "values/stamps of every relative share equal those of the de-sugared program run by the reference interpreter (so each clone does what its "
          "original would do alone); the store paths resolved for the relative references of each clone (read from the real built acts) contain "
          "that clone's own name and are exactly the expected ones; after raze only razeable insular clones of the named frame disappear, a razed clone "
-         "emits no further events, its name leaves the framer registry and a later rear can reuse it.",
+         "emits no further events, its name leaves the framer registry and a later rear can reuse it. A moot declared `via <inode>` cloned `as mine|c1 via mine` and reared at run time (alone and side by side): every clone walks wait, work, fin on its original's inode-relative data and creates no stray shares.",
     note="De-sugaring (mc/flo/lang.py: instantiate/desugar) and relative addressing rules are written from the statement / documentation, independent of Framer.clone and Act.resolvePath.",
 )
 from mc import core
@@ -99,8 +99,92 @@ def on_prog(p, idx, label, prog, meta):
                              outcome=lambda rr: "%d-framers/%s" % (len(rr.final["registry"]), rr.ticks[-1]["framers"][0][4] if rr.ticks else None))
 
 
+# ---------------------------------------------------------------- clones of a moot declared `via <inode>`
+
+VIA_SCRIPT = """house h
+  framer mission be active first setup
+    frame setup
+      put 7 into .%(where)s.level
+      put 0 into .%(where)s.worked
+%(rear)s      go next
+%(frames)s
+    frame finish
+      do rec with tag "finish.en" at enter
+  framer worker be moot%(mootvia)s
+    frame wait
+      do rec with tag "wait.en" at enter
+      go next if me.level == 7
+    frame work
+      do rec with tag "work.en" at enter
+      inc me.worked with 1
+      go next
+    frame fin
+      do rec with tag "fin.en" at enter
+      done me
+"""
+
+
+def via_scripts():
+    """(label, text, nclones, where): clones of a moot whose framer carries `via <inode>` (and a moot without one, cloned
+    `via <inode>`), made statically (`as mine via mine`, `as c1 via mine`) and at run time (`rear`), alone and side
+    by side: every clone must resolve its inode-relative data (`me.level`, `me.worked`) where its original would."""
+    for mootvia in ("pool", "deep.pool"):
+        for kinds in (("mine",), ("c1",), ("rear",), ("mine", "rear"), ("rear", "mine"), ("c1", "rear"), ("rear", "rear")):
+            rear = ""
+            frames = ""
+            for i, k in enumerate(kinds):
+                fname = "f%d" % i
+                if k == "rear":
+                    rear += "      rear worker in frame %s\n" % fname
+                    aux = ""
+                else:
+                    aux = "      aux worker as %s via mine\n" % k
+                frames += "    frame %s\n%s      go next if all is done\n      go next if elapsed >= 1.0\n" % (fname, aux)
+            yield ("via/moot-%s/%s" % (mootvia, "+".join(kinds)),
+                   VIA_SCRIPT % dict(where=mootvia, rear=rear, frames=frames, mootvia=" via " + mootvia), len(kinds), mootvia)
+
+
+def via_work(arg):
+    shard, nshards = arg
+    core.use_repo()
+    from mc.flo import real
+    p = core.Part()
+    for idx, (label, text, nclones, where) in enumerate(via_scripts()):
+        if idx % nshards != shard:
+            continue
+        p.evaluations += 1
+        p.nontrivial(label)
+        br = real.build_text(text)
+        if not br.ok:
+            p.violation("via-clone|build-failed", label, "does not build: %r" % (br.exc,), dict(text=text))
+            continue
+        rr = real.run(br.houses, tick=0.125, horizon=40, watch=(where + ".worked", where + ".level", "worked", "level"))
+        if rr.outcome != "returned":
+            p.violation("via-clone|run-" + rr.outcome.split()[0], label, "run did not return: %s %r" % (rr.outcome, rr.exc), dict(text=text))
+            continue
+        seqs = {}
+        for evs in rr.events:
+            for (framer, frame, ctx, tag) in evs:
+                if framer.startswith("mission_"):
+                    seqs.setdefault(framer, []).append(frame)
+        p.states += len(rr.ticks)
+        p.transitions += sum(len(v) for v in seqs.values())
+        p.outcome("%d-clones/%s" % (len(seqs), sorted(set(map(tuple, seqs.values())))[:1]))
+        bad = sorted((n, v) for n, v in seqs.items() if v != ["wait", "work", "fin"])
+        last = rr.ticks[-1]["shares"] if rr.ticks else {}
+        worked = last.get(where + ".worked")
+        stray = sorted(k for k in ("worked", "level") if k in last)
+        if len(seqs) != nclones or bad or stray or worked is None or dict(worked[0]).get("value") != nclones:
+            p.violation("via-clone|clone-does-not-run-like-its-original", label,
+                        "every clone of the moot (declared via %s) should enter wait, work, fin and add 1 to %s.worked: clones ran %r, "
+                        "%s.worked = %r, stray shares created %r" % (where, where, sorted(seqs.items()), where, worked, stray),
+                        dict(text=text))
+    return p
+
+
 def run():
     ck = core.Check("C12", "model_checking", META["technique"])
+    ck.merge(core.pmap(via_work, [(i, 7) for i in range(7)]))
     runner.run_family(ck, family, on_prog)
     ck.assumptions = ["reference interpreter mc/flo/ref.py on the de-sugared program", "clone naming rule <parent name>_<tag>, insular tags <moot><n>"]
     return ck.finish(rule="program = clone layout (tags, frames, nesting) or rear/raze plan; state = canonical snapshot of all framers incl. clones "
